@@ -206,7 +206,7 @@ def run(ctx):
                        "output lengths above 255*32 are outside the statement and not exercised"]
     q = ctx.quick
     lens = (list(range(0, 71)) + [127, 128, 129, 130, 255, 256, 257, 300]) if q else list(range(0, 301))
-    fills = ["count"] if q else ["count", "zero", "seeded"]
+    fills = ["count", "zero"] if q else ["count", "zero", "ff", "seeded"]
     ctx.bounds = {"extract_lengths": "%d x %d" % (len(lens), len(lens)), "expand_L": "all of 0..8160",
                   "expand_info_grid": "info 0..300 x 12 L values",
                   "keygen": "IKM 0..128 x key_info 0..64 x %d fills x 3 suites" % (1 if q else 2)}
